@@ -21,6 +21,7 @@ def run(chk, facts, tier):
     chk.rule('context-table', 'the producer path exists as frozen: server::notify/indicate call l2cap_cb_, link_layer::queue_lcap_notification calls connection.queue_notification/queue_indication; '
              'server::l2cap_output calls dequeue_indication_or_confirmation', floor=3)
     chk.rule('shared-field-discipline', 'every store to a queue field that is written from the producer side and from the consumer side is atomic or protected by a lock_guard on the producer path', floor=2)
+    chk.rule('request-cleared-before-value-read', 'server::l2cap_output calls functions that clear producer-shared queue bits (computed from the queue implementations: stores other than |= to a field the producer writes, transitively) only on paths before the attribute value is read; a clear after the read erases a request made in between', floor=1)
     chk.rule('monotone-updates', 'storage shared with the producer is only changed by single compound updates: |= in the producer (add), &= in the consumer (dequeue/remove), plus whole resets (= 0, fill) on connect/clear; no function stores a value computed from an earlier read', floor=5)
     # context table (anchors)
     for fn in variants(facts, 'bluetoe::link_layer::link_layer::queue_lcap_notification', chk):
@@ -37,6 +38,48 @@ def run(chk, facts, tier):
     for fn in variants(facts, 'bluetoe::server::l2cap_output', chk):
         ok = bool(fn.body.calls('dequeue_indication_or_confirmation'))
         chk.instance('context-table', fn, 'server::l2cap_output -> dequeue_indication_or_confirmation', ok, '' if ok else 'consumer path changed', key='consumer')
+    # the consumer removes a request before it reads the value and never afterwards
+    shared = set()
+    qfns = [f for f in facts.functions if (f.q.startswith(Q) or f.q.startswith('bluetoe::notification_queue::') or f.q.startswith('bluetoe::details::notification_queue_impl_base::'))]
+    for f in qfns:
+        if f.name in PRODUCER:
+            for tgt, op, val, st in stores(f.body):
+                if target_name(tgt):
+                    shared.add(target_name(tgt))
+    clearing = set()
+    for f in qfns:
+        if f.name in PRODUCER or f.name.startswith('notification_queue'):
+            continue
+        for tgt, op, val, st in stores(f.body):
+            if target_name(tgt) in shared and op not in ('|=', 'init'):
+                clearing.add(f.name)
+    changed = True
+    while changed:
+        changed = False
+        for f in qfns:
+            if f.name not in clearing and f.name not in PRODUCER and not f.name.startswith('notification_queue') and any(c.cn in clearing or (c.callee() is not None and not isinstance(c.callee(), str) and c.callee().n in clearing) for c in f.body.calls()):
+                clearing.add(f.name)
+                changed = True
+    chk.require('dequeue_indication_or_confirmation' in clearing and shared, 'no bit-clearing consumer function found in the queue implementations (shared fields: %s)' % sorted(shared))
+    for fn in variants(facts, 'bluetoe::server::l2cap_output', chk):
+        reads = fn.body.calls('access')
+        if not chk.require(len(reads) == 1, 'server::l2cap_output: expected one attribute access (value read), found %d' % len(reads)):
+            continue
+        rd = reads[0]
+        bad = []
+        n = 0
+        for c in fn.body.calls():
+            nm = c.cn or (c.callee().n if c.callee() is not None and not isinstance(c.callee(), str) else None)
+            if nm not in clearing:
+                continue
+            n += 1
+            after = (fn.block_of(c) == fn.block_of(rd) and precedes(fn, rd, c)) or (fn.block_of(c) != fn.block_of(rd) and fn.paths_avoiding([x for x in fn.blocks[fn.block_of(rd)].succ if x >= 0], fn.block_of(c), set()))
+            if after:
+                bad.append(c)
+        ok = not bad and n >= 1
+        chk.instance('request-cleared-before-value-read', fn, 'queue bits shared with the producer are cleared (%s) only before the value is read: %d call(s)' % (', '.join(sorted(clearing)), n), ok,
+                     '' if ok else '%s() at line %d clears request bits after the characteristic value was read: a notify() from interrupt context between the read and this call is erased and the new value never sent' % (
+                         (bad[0].cn or bad[0].callee().n) if bad else '?', bad[0].l if bad else 0), node=bad[0] if bad else None, key='consumer-order')
     # who writes which field
     classes = [c for c in facts.cls('bluetoe::details::notification_queue_impl') if c['kind'] == 'pattern']
     chk.require(len(classes) >= 2, 'expected two notification_queue_impl implementations')
